@@ -121,40 +121,50 @@ def confirm(ids):
 
 
 def run(ids, tier="quick"):
-    for sid in ids:
-        d = os.path.join(SEEDED, sid)
-        meta_path = os.path.join(d, "meta.json")
-        meta = json.load(open(meta_path)) if os.path.exists(meta_path) else {}
-        checks = meta.get("checks") or [sid.split("_")[0]]
-        rc, st = sh("git -C %s status --porcelain" % REPO)
-        assert st.strip() == "", "repo not clean: " + st
-        rc, out = sh("git -C %s apply %s" % (REPO, os.path.join(d, "patch.diff")))
-        assert rc == 0, out
-        results = {}
-        try:
+    """Development mode: the change is applied in a scratch worktree and the checks are pointed at
+    it with VERIF_REPO (so that /repo stays usable for concurrent work). The registered procedure
+    (git -C /repo apply; run; git -C /repo checkout -- .) gives the same result."""
+    wt = "/tmp/seed_run_wt"
+    sh("git -C %s worktree remove --force %s" % (REPO, wt))
+    rc, out = sh("git -C %s worktree add --detach %s HEAD" % (REPO, wt))
+    assert rc == 0, out
+    shutil.copy(os.path.join(REPO, "Cargo.lock"), os.path.join(wt, "Cargo.lock"))
+    env = dict(os.environ)
+    env["VERIF_REPO"] = wt
+    try:
+        for sid in ids:
+            d = os.path.join(SEEDED, sid)
+            meta_path = os.path.join(d, "meta.json")
+            meta = json.load(open(meta_path)) if os.path.exists(meta_path) else {}
+            checks = meta.get("checks") or [sid.split("_")[0]]
+            sh("git checkout -- .", cwd=wt)
+            rc, out = sh("git apply %s" % os.path.join(d, "patch.diff"), cwd=wt)
+            if rc != 0:
+                print(sid, "PATCH DOES NOT APPLY", out[-300:], flush=True)
+                continue
+            results = {}
             for item in checks:
-                pid, only = (item.split(":", 1) + [None])[:2] if ":" in item else (item, None)
+                pid, only = item.split(":", 1) if ":" in item else (item, None)
                 cmd = "./verif check %s --tier %s" % (pid, tier)
                 if only:
                     cmd += " --only " + only
                 t0 = time.time()
-                rc, out = sh(cmd, cwd=VERIF, timeout=4 * 3600)
+                rc, out = sh(cmd, cwd=VERIF, timeout=4 * 3600, env=env)
                 lines = [l for l in out.splitlines() if re.match(r"^(VIOLATION|KNOWN-FINDING|INCONCLUSIVE|OK|  \[)", l)]
-                results[item] = {"exit": rc, "wall_s": round(time.time() - t0), "lines": [l[:220] for l in lines if not l.strip().endswith("PASS")][:30]}
+                results[item] = {"exit": rc, "wall_s": round(time.time() - t0),
+                                 "lines": [l[:220] for l in lines if not l.rstrip().endswith("PASS") and "PASS   " not in l][:30]}
                 print(sid, item, "exit", rc, "%.0fs" % (time.time() - t0), flush=True)
                 for l in results[item]["lines"]:
                     print("     ", l, flush=True)
-                # keep the replay files of this run
-                rdir = os.path.join(VERIF, "replays", pid)
-                if rc == 1 and os.path.isdir(rdir):
-                    dst = os.path.join(d, "replays_" + pid)
-                    shutil.rmtree(dst, ignore_errors=True)
-        finally:
-            sh("git -C %s checkout -- ." % REPO)
-        meta["detection"] = {"tier": tier, "results": results,
-                             "detected": any(r["exit"] == 1 for r in results.values()),
-                             "at": time.strftime("%Y-%m-%d %H:%M:%S")}
-        json.dump(meta, open(meta_path, "w"), indent=1)
+            meta["detection"] = {"tier": tier, "results": results,
+                                 "detected": any(r["exit"] == 1 for r in results.values()),
+                                 "repo_head": sh("git -C %s rev-parse --short HEAD" % REPO)[1].strip(),
+                                 "at": time.strftime("%Y-%m-%d %H:%M:%S")}
+            json.dump(meta, open(meta_path, "w"), indent=1)
+    finally:
+        sh("git -C %s worktree remove --force %s" % (REPO, wt))
+        shutil.rmtree(wt, ignore_errors=True)
+        sh("git -C %s worktree prune" % REPO)
 
 
 if __name__ == "__main__":
